@@ -92,7 +92,7 @@ func (s *c07Sys) Ops() []string {
 		}
 	}
 	ops = append(ops, "login(alice,current,basic)", "login(ALICE,current,form)", "login(alice,empty,form)", "login(alice,bobs,form)",
-		"dir(up)", "dir(down)", "dir(first-down)", "change(alice)", "change(bob)", "tick(1h)", "tick(95h)", "tick(97h)",
+		"dir(up)", "dir(down)", "dir(first-down)", "dir(second-down)", "change(alice)", "change(bob)", "tick(1h)", "tick(95h)", "tick(97h)",
 		"primary(up)", "primary(outage)", "sync", "tamper(copy-alice-to-bob)", "tamper(bump-expiry-alice)", "tamper(flip-byte-alice)")
 	return ops
 }
@@ -149,6 +149,8 @@ func (s *c07Sys) Apply(op string) (string, string, string) {
 			c07D.down = map[string]bool{"ldap1.example.com": true, "ldap2.example.com": true}
 		case "first-down":
 			c07D.down = map[string]bool{"ldap1.example.com": true}
+		case "second-down":
+			c07D.down = map[string]bool{"ldap2.example.com": true}
 		}
 		return "ok", "", ""
 	case "change":
@@ -397,7 +399,7 @@ func init() {
 	vfRegister(&vfeng.Check{
 		ID:    "C07",
 		Level: "model_checking",
-		Rule:  "explicit-state BFS with canonical-state deduplication over histories of {login with current/old/wrong/empty/other user's password via form or basic-auth and with a case variant of the name, directory all up / all down / first server down, password change, tick 1h/95h/97h, primary store up/outage (fault-injecting SQL driver), synchronisation (real copyDBIntoSQLite + cleanup), cache-row tampering: copy alice's row to bob, bump the expiry column, flip a byte} for two users on the real login handler, LDAP authenticator and storage layer; oracle = plain-map model of the directory and of both stores (signed subject, signed expiry, hashed password) compared on every transition for the verdict and for presence of the record in the stores; htpasswd and external-command backends are run once each",
+		Rule:  "explicit-state BFS with canonical-state deduplication over histories of {login with current/old/wrong/empty/other user's password via form or basic-auth and with a case variant of the name, directory all up / all down / first server down / second server down, password change, tick 1h/95h/97h, primary store up/outage (fault-injecting SQL driver), synchronisation (real copyDBIntoSQLite + cleanup), cache-row tampering: copy alice's row to bob, bump the expiry column, flip a byte} for two users on the real login handler, LDAP authenticator and storage layer; oracle = plain-map model of the directory and of both stores (signed subject, signed expiry, hashed password) compared on every transition for the verdict and for presence of the record in the stores; htpasswd and external-command backends are run once each",
 		Assumptions: []string{"the LDAP bind itself is stubbed at lib/authutil (seam inserted by verifgen): the wire protocol is out of scope", "refresh and eviction are demanded only while the primary store is reachable"},
 		Bounds: func(tier string) map[string]interface{} {
 			d := 4
